@@ -11,7 +11,7 @@ import world as worldgen  # noqa: E402
 from extract import ExtractError  # noqa: E402
 
 VERIF = os.path.dirname(os.path.dirname(os.path.abspath(__file__)))
-BUILD = os.path.join(VERIF, "build")
+BUILD = os.path.join(VERIF, "build", f"p{os.getpid()}")   # per process: concurrent checks must not share generated files
 
 VIOLATION_MSGS = (
     "postcondition not satisfied",
